@@ -67,6 +67,16 @@ def check_design(ctx, g, cls, k, cycles, nsimple, nforced, ffl, coq_cases, coq_m
       if d:
         ctx.violation(f'C01:schedule-dependent:{g.name}:{sch}', f'design {g.name}: signals differ between {base_name} and {sch}#{i} at step {d[0]} ({"eval" if d[0]%2==0 else "tick"} of cycle {d[0]//2}): {d[2]}',
                       {'design_source': src, 'schedulers': [base_name, f'{sch}#{i}'], 'input_seed': seed, 'step': d[0], 'signals': d[2]})
+  # the other driving protocol (inputs written, sim_tick only) with line tracing switched on: the pass groups must still
+  # agree with each other and with the untraced simple schedule
+  tbase = sc.simulate_ticks(sc.build(cls, 'simple', seed=0), g, seed, cycles)
+  for sch in ('simple', 'dynamic', 'unroll', 'heuristic', 'mamba'):
+    tr = sc.simulate_ticks(sc.build(cls, sch, seed=0, trace=True), g, seed, cycles)
+    ctx.count((g.name, sch, 'tick-only-linetrace'), True, cls='tick-only:' + sch)
+    d = sc.first_diff(tbase, tr)
+    if d:
+      ctx.violation(f'C01:schedule-dependent:{g.name}:{sch}:tick-only-linetrace', f'design {g.name}: driven by sim_tick alone with line tracing on, {sch} differs from simple (no tracing) after tick {d[0]}: {d[2]}',
+                    {'design_source': src, 'scheduler': sch, 'protocol': 'inputs written, sim_tick() only, print_line_trace=True', 'input_seed': seed, 'tick': d[0], 'signals': d[2]})
   # EVERY linear extension of pymtl3's constraint graph is a legal schedule (SimpleSchedulePass picks one at random), so a
   # writer/reader pair that shares a bit (declared footprints mapped to bit intervals here, plus reads/writes discovered
   # by running the blocks) but that the graph leaves unordered gets its own witness: the linear extension that runs
@@ -180,6 +190,11 @@ def check_design(ctx, g, cls, k, cycles, nsimple, nforced, ffl, coq_cases, coq_m
             ctx.violation(f'C01:dep:{g.name}:{b.__name__}', f'block {b.__name__} of {g.name}: value written to {sname} depends on bit {bit} of {q!r}, which is not in its declared read set',
                           {'design_source': src, 'block': b.__name__, 'flipped': [repr(q), bit]})
     top.sim_eval_combinational(); top.sim_tick()
+  # the constraint graph itself, for the graph acceptor (all linear extensions at once)
+  dterm_g, missing = sc.dag_case(fp)
+  coq_meta_dag = getattr(ctx, '_dag_meta', None)
+  if coq_meta_dag is None: ctx._dag_cases, ctx._dag_meta = [], []
+  ctx._dag_cases.append(dterm_g); ctx._dag_meta.append((g.name, src, [(fp.comb[a].__name__, fp.comb[b].__name__) for a, b in missing], [b.__name__ for b in fp.comb]))
   # acceptor case for Coq
   dterm = fp.design_term()
   oterm = coq_list([coq_list([f'{x}%nat' for x in o]) for _, o in orders])
@@ -228,6 +243,14 @@ Definition case_ok (c : design * list (list nat)) : bool :=
                          [f"let '(d, os) := {coq_cases[i]} in (wf_design d, sw_ok d, nsl_ok d, noinv_ok d, map (sched_ok d) os)"])
     ctx.violation(f'C01:acceptor:{name}', f'design {name}: Coq acceptor rejects (wf, single-writer, no-self-loop, no-inversion, per-schedule ok) = {parts[0][:300]}',
                   {'design_source': src, 'schedules': dict(zip(onames, orders)), 'acceptor_result': parts[0]})
+  # graph acceptor: pymtl3's constraint graph orders every pair the footprints require, so EVERY schedule it allows is accepted
+  badg = ctx.coq_bad_indices('dag', 'Base.Prelude Sched.Accept Sched.DagAccept', '', 'design * list (nat * nat) * list (list nat)',
+                             ctx._dag_cases, "let '(d, G, P) := c in dag_ok d G P && sw_ok d", shard=10)
+  for i in badg[:6]:
+    name, src, missing, bn = ctx._dag_meta[i]
+    ctx.violation(f'C01:graph-acceptor:{name}', f'design {name}: pymtl3\'s constraint graph is rejected by dag_ok: pairs (writer, reader) that share a bit but are not ordered by any path: {missing[:4]} - some schedule the graph allows runs a reader before its writer',
+                  {'design_source': src, 'unordered_pairs': missing, 'blocks': bn})
+  ctx.extra['designs_with_graph_acceptor_case'] = len(ctx._dag_cases)
   rtlfoot.run_corpus(ctx); rtlfoot.finish(ctx)
   ctx.sample({'design': coq_meta[0][0], 'source_tail': coq_meta[0][1][-600:], 'observed_orders': dict(zip(coq_meta[0][2], coq_meta[0][3]))})
   ctx.extra.update({'designs': len(coq_cases), 'distinct_observed_linear_extensions': distinct_orders})
@@ -236,7 +259,7 @@ def main(ctx):
   ctx.trusted += ['translators/rtlblk2coq.py (update block AST -> RTL/Syntax term; validated on every run by evaluating the translated block in Coq against the real block on sampled states)', 'harness/sched_common.py: design generator, mapping of pymtl3 signal objects to bit intervals, execution-order tracer (sys.setprofile)']
   ctx.assumptions += ['for update blocks inside the RTL language of RTL/Syntax.v (about 95% of generated blocks) frame/dep are PROVED for the syntactic footprints (C01_rtl_frame/dep) and pymtl3\'s declared footprints are checked in Coq to cover them; for the remaining blocks the footprints are pymtl3\'s own analysis and frame/dep are validated dynamically per executed block',
                       'designs are drawn from the RTL generator in sched_common.Gen (Bits/struct/list signals, slices, fields, nets, child components, explicit U<U constraints)']
-  ctx.build_props(extra_models=['theories/Sched/Accept.vo', 'theories/RTL/Footprint.vo'])
+  ctx.build_props(extra_models=['theories/Sched/Accept.vo', 'theories/Sched/DagAccept.vo', 'theories/RTL/Footprint.vo'])
   try:
     run(ctx)
   except Exception as e:
